@@ -1,5 +1,4 @@
-(* C06_reencode for all fifteen packet types: refuted as stated (protocol level 3 CONNECT, Will
-   QoS 3), proved outside these two known findings. *)
+(* C06_reencode for all fifteen packet types, on every input. *)
 From Coq Require Import List NArith ZArith Bool Lia ZifyN ZifyNat ZifyBool Sorted.
 Import ListNotations.
 From GM Require Import Base.Topic Base.Msg Model.CodecBase Model.CodecProps Model.CodecPackets Oracle.C06O
@@ -68,54 +67,24 @@ Definition reencodes (v : N) (bs : list N) : Prop :=
   forall bs', pack (p_body p) = Ok bs' ->
   exists p', read_packet v bs' = Ok (p', []) /\ p_body p' = p_body p.
 
-(* false as stated: a 3.1 CONNECT ("MQIsdp", level 3) is accepted, but Connect.Pack writes the
-   length of the protocol name as 4, and the result is refused *)
+(* former counterexamples (repaired in /repo): a 3.1 CONNECT ("MQIsdp", level 3) now re-encodes to
+   the same bytes; a CONNECT with Will QoS 3 is refused *)
 Definition connect31 : list N := [16; 18; 0; 6; 77; 81; 73; 115; 100; 112; 3; 2; 0; 60; 0; 4; 97; 98; 99; 100].
-(* run the decoder, the encoder and the decoder again on a concrete input *)
-Ltac run_reenc H v bs :=
-  unfold reencodes in H;
-  let r := eval vm_compute in (read_packet v bs) in
-  match r with
-  | Ok (?p, ?rest) =>
-      let E := fresh "E" in
-      assert (E : read_packet v bs = Ok (p, rest)) by (vm_compute; reflexivity);
-      specialize (H p rest E); clear E;
-      let r2 := eval vm_compute in (pack (p_body p)) in
-      match r2 with
-      | Ok ?bs' =>
-          let E2 := fresh "E" in
-          assert (E2 : pack (p_body p) = Ok bs') by (vm_compute; reflexivity);
-          specialize (H bs' E2); clear E2
-      end
-  end.
-
-Theorem reencode_refuted : exists v bs, bytes_ok bs /\ ~ reencodes v bs.
-Proof.
-  exists 4, connect31. split.
-  - unfold bytes_ok, connect31. repeat constructor.
-  - intro H. run_reenc H 4 connect31.
-    destruct H as [p' [Hr _]]. vm_compute in Hr. discriminate.
-Qed.
-(* Will QoS 3 is accepted, and written back as Will QoS 0 *)
 Definition connect_wq3 : list N := [16; 19; 0; 4; 77; 81; 84; 84; 4; 30; 0; 60; 0; 1; 99; 0; 1; 116; 0; 1; 109].
-Theorem reencode_refuted_willqos : ~ reencodes 4 connect_wq3.
-Proof.
-  intro H. run_reenc H 4 connect_wq3.
-  destruct H as [p' [Hr Heq]]. vm_compute in Hr. apply ok_inj in Hr. injection Hr as <-.
-  vm_compute in Heq. discriminate.
-Qed.
+Lemma connect31_reencodes :
+  match read_packet 4 connect31 with Ok (p, []) => pack (p_body p) = Ok connect31 | _ => False end.
+Proof. vm_compute. reflexivity. Qed.
+Lemma connect_wq3_refused : read_packet 4 connect_wq3 = Err MALFORMED.
+Proof. vm_compute. reflexivity. Qed.
 
-(* C06_reencode, all packet types, outside the two known findings *)
-Theorem reencode_partial : forall v bs,
-  (v = 3 \/ v = 4 \/ v = 5) -> bytes_ok bs ->
-  kf_connect_v31_pack v bs = false -> kf_will_qos3 v bs = false ->
-  reencodes v bs.
+(* C06_reencode, all packet types *)
+Theorem reencode_all : forall v bs,
+  (v = 3 \/ v = 4 \/ v = 5) -> bytes_ok bs -> reencodes v bs.
 Proof.
-  intros v bs Hv Hb K1 K2 p rest Hr bs' Hp.
+  intros v bs Hv Hb p rest Hr bs' Hp.
   destruct (simple_body (p_body p)) eqn:Hs.
   { eapply reencode_simple; eauto. }
   pose proof (read_packet_inv _ _ _ _ Hr Hb) as Hinv.
-  unfold kf_connect_v31_pack, kf_will_qos3, model_body in K1, K2. rewrite Hr in K1, K2.
   unfold pack in Hp. destruct (pack_full (p_body p)) as [[bs0 fh0]| | |] eqn:Ef; cbn [bind] in Hp; try discriminate.
   apply ok_inj in Hp. subst bs0.
   unfold pack_full in Ef.
@@ -125,8 +94,7 @@ Proof.
   assert (Hlen : len bytes < BIG) by (apply pack_fixhdr_len' in Eh; exact Eh).
   destruct (p_body p) as [c| | | | |ver pid ts pr| |ver pid ts pr| | | | | ] eqn:Ebody; try discriminate.
   - (* CONNECT *) cbn [dec_inv_all] in Hinv.
-    assert (L3 : c_level c <> 3) by lia. assert (Q3 : c_wqos c <> 3) by lia.
-    destruct (rt_connect c t fl bytes Hinv L3 Q3 Epb Hlen) as (-> & -> & Hparse).
+    destruct (rt_connect c t fl bytes Hinv Epb Hlen) as (-> & -> & Hparse).
     eapply (read_packet_packed v CONNECT 0 bytes _ h); [reflexivity|reflexivity|exact Hlen| |exact Eh].
     left. split; [reflexivity|exact Hparse].
   - (* SUBSCRIBE *) cbn [dec_inv_all] in Hinv. assert (ver = v) by (destruct Hinv; assumption). subst ver.
